@@ -10,10 +10,12 @@ props = sorted(f[:-3].upper() for f in os.listdir(os.path.join(VERIF, 'aylint', 
 def one(sid):
     wt = '/tmp/sv/run-' + sid
     os.makedirs('/tmp/sv', exist_ok=True)
-    subprocess.run(['git', '-C', '/repo', 'worktree', 'remove', '--force', wt], capture_output=True)
-    subprocess.run(['git', '-C', '/repo', 'worktree', 'add', '-q', '--detach', wt, 'HEAD'], check=True)
+    subprocess.run(['rm', '-rf', wt])
+    os.makedirs(wt)
+    # the checks only read sources: a plain copy of the package is enough (static analysis, nothing is imported)
+    subprocess.run(['cp', '-r', '/repo/awesomeyaml', wt + '/awesomeyaml'], check=True)
     try:
-        p = subprocess.run(['git', '-C', wt, 'apply', os.path.join(VERIF, 'seeded', sid, 'patch.diff')], capture_output=True, text=True)
+        p = subprocess.run(['git', 'apply', '--include=awesomeyaml/*', os.path.join(VERIF, 'seeded', sid, 'patch.diff')], cwd=wt, capture_output=True, text=True)
         if p.returncode:
             return sid, {'apply': 'FAILED ' + p.stderr[-200:]}
         ev = tempfile.mkdtemp(prefix='ayev')
@@ -27,7 +29,7 @@ def one(sid):
         subprocess.run(['rm', '-rf', ev])
         return sid, res
     finally:
-        subprocess.run(['git', '-C', '/repo', 'worktree', 'remove', '--force', wt], capture_output=True)
+        subprocess.run(['rm', '-rf', wt])
 with cf.ThreadPoolExecutor(8) as ex:
     out = dict(ex.map(one, seeds))
 summary = {}
